@@ -25,7 +25,9 @@ from typing import Any, Callable, Dict, List, Optional, Tuple
 ROOT = Path(__file__).resolve().parent.parent
 LEAN = ROOT / 'lean'
 REPO = Path(os.environ.get('BOBOCEP_REPO', '/repo'))
-EVIDENCE = ROOT / 'evidence'
+# evidence goes to /verif/evidence; trial runs against a changed copy of the repository (tools/try_seed.sh,
+# tools/rerun_seeds.sh) redirect it so that the committed evidence always describes the unchanged tree
+EVIDENCE = Path(os.environ['VERIF_EVIDENCE_DIR']) if os.environ.get('VERIF_EVIDENCE_DIR') else ROOT / 'evidence'
 REPLAYS = ROOT / 'replays'
 CORPUS = ROOT / 'harness' / 'corpus'
 DRIVER = LEAN / '.lake' / 'build' / 'bin' / 'bobodrv'
